@@ -6,6 +6,15 @@
 //	(1) every string over a decoder-specific alphabet of "interesting" tokens up to a length L,
 //	(2) every "fields" alteration of valid seed inputs: every length / count / type field set to
 //	    every boundary value (width permitting), combined with every truncation,
+//	(3) modes and reader states (modes.go): a decoder with a mode flag is enumerated in every
+//	    mode - the MySQL column definition parser with / without MariaDB extended type info,
+//	    directly and through sessions of the real handler that did / did not negotiate the
+//	    capability - with every length-prefixed field written in every width of a
+//	    length-encoded integer (1, 3, 4, 9 bytes) x every declared value of a boundary set
+//	    relative to the bytes really present x every truncation; the PostgreSQL client-side
+//	    reader is enumerated at the start of a session (every first-packet kind x every
+//	    declared length 0..17 and the boundary set x every number of bytes that follow) as well
+//	    as in its steady state (every tag x the same lengths),
 //
 // and evaluates on every input: no panic, the call returns (guard: 20 s of CPU time, or 20 s
 // blocked; re-run 5x in fresh workers before a hang is reported), the bytes allocated during
@@ -1070,13 +1079,15 @@ func main() {
 	r.Set("allocation_budget", "64 MiB + 16 x input size (runtime.MemStats.TotalAlloc delta, single-threaded worker)")
 	r.Set("worker_address_space_headroom_mib", rlimitHeadroom>>20)
 	r.Set("hang_guard", "a call is a hang candidate after 20 s of CPU time or 20 s blocked without CPU use; reported when 5 of 5 re-runs in fresh workers agree")
-	r.Rule("state = one input (a token sequence over the decoder family's alphabet up to the length bound, or a valid seed with one length/count/type field set to one boundary value and cut at one position); transition = one decoder entry point called on that input in a single-threaded worker process; distinct_nontrivial counts distinct (decoder, outcome class, normalised error text | panic site) tuples; different token sequences that spell the same bytes are counted as different inputs")
+	r.Rule("state = one input (a token sequence over the decoder family's alphabet up to the length bound, or a valid seed with one length/count/type field set to one boundary value and cut at one position); transition = one decoder entry point called on that input in a single-threaded worker process; distinct_nontrivial counts distinct (decoder, outcome class, normalised error text | panic site) tuples; different token sequences that spell the same bytes are counted as different inputs; modes / reader states: state = one MySQL column definition payload (shape x length-prefixed field x prefix width 1|3|4|9 x declared value x truncation) given to the parser in both modes and, whole, to sessions with / without the MariaDB extended-type-info capability negotiated (text result set, COM_STMT_PREPARE parameter and column definitions), or one PostgreSQL packet header (first-packet kind or general tag x declared length x bytes that follow / cut of the header) given to a fresh client-side PacketHandler (first packet) or a started one and to the proxy's client pump")
 	r.Assume(
 		"Themis is replaced by the pure-Go stand-in /verif/shim/gothemis",
 		"'allocate without bound' is decided for the enumerated inputs only, with the numeric budget 64 MiB + 16 x input size (an allocation that does not fit into the worker's address-space headroom kills the worker and is reported as alloc too); 'loops' with a 20 s CPU-time / blocked guard",
 		"PostgreSQL packet alphabets consist of whole packets (well-formed or damaged in one way): a reader that trusts a 32-bit length dies on almost every unaligned byte string, one worker per input; byte-level damage of every length field is enumerated by the fields spaces",
 		"values outside the alphabets and seeds are not explored (small-scope argument)",
 		"PostgreSQL/MySQL sessions run both pumps of the real proxy on scripted connections, one pump at a time (no pump races); TLS switching is not configured",
+		"length-encoded integers are written in all four widths although a conforming server uses the shortest one: the reader accepts every form, so every form is input; the extended type info block holds one entry (type 0x00, \"json\")",
+		"PostgreSQL first packets: declared lengths above 17 are combined with 0, 4 or 13 following bytes only (the data is not there in any case); the database-side first packet (answer to SSLRequest) stays with the existing session spaces",
 		"censor YAML tokens that make the loader create files (parse_errors_log, query_capture) are left out of the alphabet",
 	)
 	cleanup()
